@@ -8,4 +8,5 @@ import (
 	_ "verif/props/c04"
 	_ "verif/props/c06"
 	_ "verif/props/c09"
+	_ "verif/props/c10"
 )
